@@ -237,10 +237,14 @@ impl Chunk {
                         if v.is_truthy() { "arr" } else { "arr0" }
                     } else if v.is_map() {
                         if v.is_truthy() { "map" } else { "map0" }
+                    } else if v.is_bool() {
+                        if v.is_truthy() { "boolT" } else { "boolF" }
+                    } else if v.is_undefined() {
+                        "undef"
                     } else if v.is_truthy() {
-                        "truthy"
+                        "numT"
                     } else {
-                        "falsy"
+                        "numF"
                     }
                 }
                 _ => "",
